@@ -8,6 +8,7 @@ package main
 // data race ends the process (the supervisor then reports it with this case as the replay).
 
 import (
+	"errors"
 	"fmt"
 	"math/rand/v2"
 	"os"
@@ -483,11 +484,12 @@ func concCase(seed uint64, idx int, flush bool) *CaseSpec {
 			}
 		}
 		if !wedged {
-			if err := ObsRIB(t, h.S.VerifRIB()); err != nil {
+			if err := ObsRIB(t, h.S.VerifRIB()); err != nil && !errors.Is(err, errHang) {
 				return t, err
-			}
-			for c := range h.sess {
-				h.Close(c, "eof")
+			} else if err == nil {
+				for c := range h.sess {
+					h.Close(c, "eof")
+				}
 			}
 		}
 		t.Add("end")
